@@ -739,6 +739,80 @@ fn tombstones(sink: &mut Sink, rng: &mut Rng, shard: (u64, u64)) {
     }
 }
 
+/// Clustered keys under the identity hasher: many keys share a home bucket (`id = r + buckets * j`), so
+/// entries sit far from their home probe group; the table is filled to capacity, most entries are
+/// removed again (tombstones, `growth_left == 0`), then a key with a *different* home (an EMPTY
+/// bucket) is inserted or capacity is requested — the states in which hashbrown would rehash in
+/// place if the crate ever let it — followed by promotions of the survivors.
+fn clustered(sink: &mut Sink, rng: &mut Rng, shard: (u64, u64)) {
+    let mut idx = 0u64;
+    for buckets in [32usize, 64, 128] {
+        let cap = buckets / 8 * 7;
+        for keep in [1usize, 3, 6, 7, 12, 13, 14, 20, 27] {
+            if keep >= cap / 2 + 2 {
+                continue;
+            }
+            for fin in 0..8usize {
+                for rep in 0..2u64 {
+                    idx += 1;
+                    if idx % shard.1 != shard.0 {
+                        continue;
+                    }
+                    let mut w = sink.begin_seq(HKind::Ident, "clustered");
+                    sink.step(&mut w, &gen::mk_line(true, Op::New { c: 0, max: usize::MAX, cap: Some(cap) }));
+                    let homes: Vec<usize> = if rep == 0 { vec![0] } else { vec![rng.below(buckets as u64) as usize, rng.below(buckets as u64) as usize] };
+                    let mut ids: Vec<u32> = Vec::new();
+                    for i in 0..cap {
+                        let id = (homes[i % homes.len()] + buckets * (i / homes.len() + 1)) as u32;
+                        ids.push(id);
+                        let kt = types::peek_next_tok();
+                        sink.step(&mut w, &gen::mk_line(false, Op::On { c: 0, op: OpKind::Ins { id, kh: 0, kt, vh: 0, vt: kt + 1 } }));
+                    }
+                    // keep `keep` entries, preferably late ones (deep in the probe sequence)
+                    let mut order: Vec<usize> = (0..cap).collect();
+                    for i in 0..cap {
+                        if rng.chance(1, 4) {
+                            let j = rng.below(cap as u64) as usize;
+                            order.swap(i, j);
+                        }
+                    }
+                    for &i in order.iter().take(cap - keep) {
+                        let op = if rng.chance(1, 2) { OpKind::Rm(ids[i]) } else { OpKind::RmE(ids[i]) };
+                        sink.step(&mut w, &gen::mk_line(false, Op::On { c: 0, op }));
+                    }
+                    // a key whose home bucket is elsewhere
+                    let fresh = |rng: &mut Rng| -> u32 { (rng.below(buckets as u64) as usize + buckets * 50 + buckets * rng.below(40) as usize) as u32 };
+                    for round in 0..3 {
+                        let kt = types::peek_next_tok();
+                        let f = fresh(rng);
+                        let ops: Vec<OpKind> = match (fin + round) % 8 {
+                            0 | 1 | 2 => vec![OpKind::Ins { id: f, kh: 0, kt, vh: 0, vt: kt + 1 }],
+                            3 => vec![OpKind::TIns { id: f, kh: 0, kt, vh: 0, vt: kt + 1 }],
+                            4 => vec![OpKind::Reserve(1 + rng.below(4) as usize)],
+                            5 => vec![OpKind::TryReserve(1 + rng.below(keep as u64 + 2) as usize)],
+                            6 => vec![OpKind::Shrink(keep + 1 + rng.below(6) as usize)],
+                            _ => vec![OpKind::ShrinkFit, OpKind::Ins { id: f, kh: 0, kt, vh: 0, vt: kt + 1 }],
+                        };
+                        for op in ops {
+                            sink.step(&mut w, &gen::mk_line(true, Op::On { c: 0, op }));
+                        }
+                        for t in 0..5u32 {
+                            let live: Vec<u32> = w.snap(0).map(|s| s.ord.iter().map(|e| e.k.id).collect()).unwrap_or_default();
+                            if live.is_empty() {
+                                break;
+                            }
+                            let id = live[rng.below(live.len() as u64) as usize];
+                            let op = match t % 5 { 0 => OpKind::Get(id), 1 => OpKind::Touch(id), 2 => OpKind::GetLru, 3 => OpKind::MutSet { id, h: rng.below(9) as usize }, _ => OpKind::GetE(id) };
+                            sink.step(&mut w, &gen::mk_line(true, Op::On { c: 0, op }));
+                        }
+                    }
+                    sink.end_seq(w);
+                }
+            }
+        }
+    }
+}
+
 /// Systematic panic injection: for a set of small states, every operation, every callback kind and
 /// every index n up to the number of callbacks the operation makes without a panic.
 fn panic_systematic(sink: &mut Sink, rng: &mut Rng, shard: (u64, u64), rounds: usize) {
@@ -992,6 +1066,7 @@ fn main() {
         "capx" => capacity_extremes(&mut sink, &mut rng),
         "slide" => sliding_window(&mut sink, &mut rng, shard),
         "tomb" => tombstones(&mut sink, &mut rng, shard),
+        "cluster" => clustered(&mut sink, &mut rng, shard),
         "panicx" => panic_systematic(&mut sink, &mut rng, shard, get("--rounds").and_then(|s| s.parse().ok()).unwrap_or(1)),
         "exh" => exhaustive(&mut sink, depth, shard),
         name => {
